@@ -1,5 +1,6 @@
 From Coq Require Import List ZArith QArith Qcanon Bool Arith Lia.
-From Dimod Require Import Base.Util Model.Poly Model.Samples Model.SSet Model.Heap Proofs.PolyFacts.
+From Dimod Require Import Base.Util Model.Poly Model.Samples Model.SSet Model.Store Model.Heap Model.CopyApi Gen.Gen_Copy
+  Proofs.PolyFacts Proofs.StoreFacts.
 Import ListNotations.
 Open Scope Qc_scope.
 
@@ -92,10 +93,14 @@ Proof. induction h as [|x r IH]; intros [|i] o; cbn; auto. Qed.
 
 Lemma hstep_length_mono K h o : (length h <= length (hstep K h o))%nat.
 Proof.
-  destruct o as [x|src c|i e]; cbn [hstep].
+  destruct o as [x|src c|i e|ci mi lbl copy|ci mi]; cbn [hstep].
   - rewrite app_length. lia.
   - destruct (nth_error h src) as [x|]; [|lia]. destruct (apply_cop K h c x); [rewrite app_length; lia|lia].
   - destruct (nth_error h i); [rewrite hset_length; lia|lia].
+  - destruct (nth_error h ci) as [[p|s|ob cs]|]; try lia. destruct (nth_error h mi) as [[p|s|ob' cs']|]; try lia.
+    destruct copy; rewrite ?hset_length; lia.
+  - destruct (nth_error h ci) as [[p|s|ob cs]|]; try lia. destruct (nth_error h mi) as [[p|s|ob' cs']|]; try lia.
+    rewrite hset_length. lia.
 Qed.
 
 (* a copy-producing call never touches an existing cell - in particular not its receiver *)
@@ -140,17 +145,64 @@ Proof.
   assert (hstep K h (HCopy src CCopy) = h ++ [x]) as -> by (cbn [hstep apply_cop]; rewrite Hx; reflexivity).
   cbn [hstep]. rewrite nth_error_app2 by lia. rewrite Nat.sub_diag. cbn [nth_error].
   assert (apply_iop K e x = y) as ->.
-  { destruct c; inversion Hc; subst e; destruct x as [p|s]; cbn [apply_cop apply_iop] in *; try discriminate;
+  { destruct c; inversion Hc; subst e; destruct x as [p|s|ob cs]; cbn [apply_cop apply_iop] in *; try discriminate;
       try (inversion Hy; reflexivity).
     destruct (apply K o s); [inversion Hy; reflexivity|discriminate]. }
   clear. induction h as [|a r IH]; cbn [app length hset]; [reflexivity|]. f_equal. exact IH.
 Qed.
 
 (* ---------- arbitrary histories ---------- *)
-Definition edits_cell (j : nat) (o : hop) : Prop := match o with HEdit i _ => i = j | _ => False end.
+Definition edits_cell (j : nat) (o : hop) : Prop :=
+  match o with
+  | HEdit i _ => i = j
+  | HAddConstraint ci mi _ copy => ci = j \/ (copy = false /\ mi = j)
+  | HSetObjective ci _ => ci = j
+  | _ => False
+  end.
 
-(* reachability / frame over any history of creations, copies and edits: a cell that no in-place
-   call of the history goes through is, afterwards, exactly what it was *)
+(* ---------- handing a model to a CQM ---------- *)
+Theorem add_constraint_cells K h ci mi lbl copy ob cs p :
+  nth_error h ci = Some (OCqm ob cs) -> nth_error h mi = Some (OModel p) ->
+  let h' := hstep K h (HAddConstraint ci mi lbl copy) in
+  nth_error h' ci = Some (OCqm ob (cs ++ [(lbl, p)]))
+  /\ nth_error h' mi = Some (OModel (if copy then p else pzero))
+  /\ (forall j, j <> ci -> j <> mi -> nth_error h' j = nth_error h j).
+Proof.
+  intros Hc Hm. cbn zeta. cbn [hstep]. rewrite Hc, Hm.
+  assert (ci <> mi) as Hne by (intros E; subst; congruence).
+  assert (ci < length h)%nat as Lc by (apply nth_error_Some; congruence).
+  assert (mi < length h)%nat as Lm by (apply nth_error_Some; congruence).
+  destruct copy.
+  - split; [apply hset_same; assumption|]. split; [rewrite hset_other by assumption; assumption|].
+    intros j H1 H2. apply hset_other. congruence.
+  - split; [rewrite hset_other by congruence; apply hset_same; assumption|].
+    split; [apply hset_same; rewrite hset_length; assumption|].
+    intros j H1 H2. rewrite !hset_other by congruence. reflexivity.
+Qed.
+
+(* a moved-from model is the empty model: every energy is 0, and it is an ordinary cell again *)
+Theorem moved_from_is_empty s : energy pzero s = 0.
+Proof. apply energy_pzero. Qed.
+
+Theorem set_objective_cells K h ci mi ob cs p :
+  nth_error h ci = Some (OCqm ob cs) -> nth_error h mi = Some (OModel p) ->
+  let h' := hstep K h (HSetObjective ci mi) in
+  nth_error h' ci = Some (OCqm p cs) /\ (forall j, j <> ci -> nth_error h' j = nth_error h j).
+Proof.
+  intros Hc Hm. cbn zeta. cbn [hstep]. rewrite Hc, Hm.
+  split; [apply hset_same, nth_error_Some; congruence|]. intros j H. apply hset_other. congruence.
+Qed.
+
+(* the expression "views" of a CQM are functions of the CQM's own cell: whatever happens, they show
+   what that cell holds *)
+Theorem cqm_views_read_parent h ci ob cs :
+  nth_error h ci = Some (OCqm ob cs) ->
+  cqm_objective h ci = Some ob
+  /\ forall lbl, cqm_constraint h ci lbl = option_map snd (find (fun c => (fst c =? lbl)%nat) cs).
+Proof. intros H. unfold cqm_objective, cqm_constraint. rewrite H. split; [reflexivity|intros; reflexivity]. Qed.
+
+(* reachability / frame over any history of creations, copies, edits and CQM hand-overs: a cell that
+   no in-place call of the history goes through is, afterwards, exactly what it was *)
 Theorem history_frame K ops : forall h j,
   (j < length h)%nat -> (forall o, In o ops -> ~ edits_cell j o) ->
   nth_error (hrun K h ops) j = nth_error h j.
@@ -158,12 +210,71 @@ Proof.
   induction ops as [|o r IH]; intros h j Hj H; [reflexivity|].
   unfold hrun. cbn [fold_left]. fold (hrun K (hstep K h o) r).
   rewrite IH.
-  - destruct o as [x|src c|i e].
+  - assert (~ edits_cell j o) as Ho by (apply H; left; reflexivity).
+    destruct o as [x|src c|i e|ci mi lbl copy|ci mi].
     + cbn [hstep]. apply nth_error_app1. assumption.
     + apply copy_receiver_unchanged. assumption.
-    + apply edit_frame. intros E. apply (H (HEdit i e)); [left; reflexivity|exact E].
+    + apply edit_frame. intros E. apply Ho. exact E.
+    + cbn [edits_cell] in Ho. cbn [hstep].
+      destruct (nth_error h ci) as [[p|s|ob cs]|] eqn:Ec; try reflexivity.
+      destruct (nth_error h mi) as [[p|s|ob' cs']|] eqn:Em; try reflexivity.
+      destruct copy.
+      * apply hset_other. intros E. apply Ho. left. exact E.
+      * rewrite !hset_other; [reflexivity| |].
+        -- intros E. apply Ho. left. exact E.
+        -- intros E. apply Ho. right. split; [reflexivity|exact E].
+    + cbn [edits_cell] in Ho. cbn [hstep].
+      destruct (nth_error h ci) as [[p|s|ob cs]|] eqn:Ec; try reflexivity.
+      destruct (nth_error h mi) as [[p|s|ob' cs']|] eqn:Em; try reflexivity.
+      apply hset_other. exact Ho.
   - pose proof (hstep_length_mono K h o). lia.
   - intros o' Ho'. apply H. right. assumption.
+Qed.
+
+(* the constraint stored in the CQM is independent of the caller's model from then on, copy or move *)
+Theorem stored_constraint_independent K h ci mi lbl copy ob cs p ops :
+  nth_error h ci = Some (OCqm ob cs) -> nth_error h mi = Some (OModel p) ->
+  (forall o, In o ops -> ~ edits_cell ci o) ->
+  nth_error (hrun K (hstep K h (HAddConstraint ci mi lbl copy)) ops) ci = Some (OCqm ob (cs ++ [(lbl, p)])).
+Proof.
+  intros Hc Hm H. destruct (add_constraint_cells K h ci mi lbl copy ob cs p Hc Hm) as (E1 & _ & _).
+  rewrite history_frame; [exact E1| |assumption].
+  pose proof (hstep_length_mono K h (HAddConstraint ci mi lbl copy)).
+  assert (ci < length h)%nat by (apply nth_error_Some; congruence). lia.
+Qed.
+
+(* ... and with copy=True the caller's model is untouched and stays so as long as nobody edits IT *)
+Theorem copied_model_independent K h ci mi lbl ob cs p ops :
+  nth_error h ci = Some (OCqm ob cs) -> nth_error h mi = Some (OModel p) ->
+  (forall o, In o ops -> ~ edits_cell mi o) ->
+  nth_error (hrun K (hstep K h (HAddConstraint ci mi lbl true)) ops) mi = Some (OModel p).
+Proof.
+  intros Hc Hm H. destruct (add_constraint_cells K h ci mi lbl true ob cs p Hc Hm) as (_ & E2 & _).
+  rewrite history_frame; [exact E2| |assumption].
+  pose proof (hstep_length_mono K h (HAddConstraint ci mi lbl true)).
+  assert (mi < length h)%nat by (apply nth_error_Some; congruence). lia.
+Qed.
+
+(* ---------- arithmetic with a neutral operand: equal contents, but a NEW object ---------- *)
+Lemma add_offset_zero p : add_offset 0 p = p.
+Proof. destruct p as [o l q]. unfold add_offset. cbn [p_off p_lin p_quad]. f_equal. ring. Qed.
+
+Lemma scale_one p : scale 1 p = p.
+Proof.
+  destruct p as [o l q]. unfold scale. cbn [p_off p_lin p_quad]. f_equal; [ring| |].
+  - rewrite <- (map_id l) at 2. apply map_ext. intros [v b]. cbn [fst snd]. f_equal. ring.
+  - rewrite <- (map_id q) at 2. apply map_ext. intros [[u v] b]. cbn [fst snd]. f_equal. ring.
+Qed.
+
+(* 0 + a, 0.0 + a, a + 0, a - 0, sum([a])  and  1 * a, a * 1, a / 1 *)
+Theorem neutral_operand_is_a_fresh_equal_object K h src p :
+  nth_error h src = Some (OModel p) ->
+  hstep K h (HCopy src (CAddConst 0)) = h ++ [OModel p]
+  /\ hstep K h (HCopy src (CScale 1)) = h ++ [OModel p]
+  /\ length h <> src.
+Proof.
+  intros H. cbn [hstep apply_cop]. rewrite H, add_offset_zero, scale_one.
+  repeat split. assert (src < length h)%nat by (apply nth_error_Some; congruence). lia.
 Qed.
 
 (* after a copy-producing call: whatever is later done in place to other objects (the receiver
@@ -181,3 +292,23 @@ Proof.
   - intros j Hj H. rewrite history_frame; [apply copy_receiver_unchanged; assumption| |assumption].
     rewrite E1, app_length. cbn. lia.
 Qed.
+
+(* ---------- spin / binary views (Model/Store.v instantiated with real model states) ---------- *)
+(* whatever step is taken - an edit through the parent, through the view, a copy, a new object - the
+   view shows the vartype conversion of what its parent holds now, and that conversion evaluates as
+   the parent does on the converted sample *)
+Theorem spin_binary_views_track_parent (s : store mstate) o v p w :
+  wf mstate s -> nth_error s v = Some (View p w) ->
+  read mstate model_viewfn (step mstate model_viewfn s o) v
+  = option_map (model_viewfn w) (own_state mstate (step mstate model_viewfn s o) p).
+Proof. apply views_track_parent. Qed.
+
+Theorem view_energy (m : mstate) x :
+  energy (snd (model_viewfn 0 m)) x = energy (snd m) (b2s_sample (fst m) x)
+  /\ energy (snd (model_viewfn 1 m)) x = energy (snd m) (s2b_sample (fst m) x).
+Proof. cbn [model_viewfn snd fst]. split; [apply b2s_energy|apply s2b_energy]. Qed.
+
+(* ---------- tie to the source ---------- *)
+Theorem copy_api_matches :
+  gen_copy_api = modeled_copy_api /\ gen_sampleset_functions = modeled_sampleset_functions.
+Proof. split; reflexivity. Qed.
